@@ -277,6 +277,10 @@ package override
 //@   ensures[C04] isMap(a) && has(asMap(a), "target") && isStr(asMap(a)["target"]) ==> err == nil && result.0 == asStr(asMap(a)["target"])
 //@   ensures[C04] isMap(a) && has(asMap(a), "target") && !isStr(asMap(a)["target"]) ==> err != nil
 //@   ensures[C04] !isMap(a) && !isStr(a) ==> err != nil
+// the implicit target of a short grant (and of a long grant without target) is <default path>/<name>: the short
+// form `foo` and the long form {source: x, target: <default path>/foo} have the same key, so the later one wins
+//@   ensures[C04] isStr(a) ==> err == nil && result.0 == defaultPath + "/" + asStr(a)
+//@   ensures[C04] isMap(a) && !has(asMap(a), "target") && has(asMap(a), "source") && isStr(asMap(a)["source"]) ==> err == nil && result.0 == defaultPath + "/" + asStr(asMap(a)["source"])
 
 //@ func portIndexer
 //@   nopanic[C01,C04]
